@@ -8,5 +8,5 @@ CONSTANTS
   TightCap = TRUE
   CopyArgs = FALSE
   HtmlDep = FALSE
-INVARIANTS Emit Deterministic SharedReadOnly NoBlocking CompletesAlone LockSane
+INVARIANTS Emit Deterministic SharedReadOnly NoBlocking LockSane
 CHECK_DEADLOCK FALSE
